@@ -10,6 +10,38 @@ NOTE = ("Trusted: Coq 8.16.1 kernel (no axioms: every property theorem prints 'C
         "The theorems are about the hand-written Gallina model; the model is tied to /repo on every run by the table "
         "translator and by the differential correspondence run, which bounds what has been exercised.")
 CLAIMED = {
+    "C01": dict(
+        text="Theorems C01_parser_never_panics / C01_step_never_panics: the pull parser model never panics for ANY token stream "
+             "(consequence of the C02 stack invariant). The scanner families (lookahead discipline, queue invariants, termination) "
+             "are not yet theorems: the model's explicit Panic/OutOfFuel outcomes act as monitors on every input of the correspondence "
+             "run (str, buf16, buf8 instances), and the implementation is run on 6 input back-ends x {iterator, push, peek/next, 4 "
+             "loaders} with panic capture, crash detection and input-call counting (linear-work bound 64n+4096).",
+        ref="DESIGN.md 5/C01", tech="Rocq proof (parser layer: never panics, all token streams) + model monitors + differential correspondence; scanner families partial"),
+    "C10": dict(
+        text="Theorems C10_peek_nth / C10_skip: per-operation refinement between the buffered input model of any capacity and the "
+             "string input model under the buffer relation Rel (peek within the buffer, skip). Whole-scanner simulation is not yet a "
+             "theorem: the model's str / buf8 / buf16 / buf64 instances are run on every input and must agree with each other and with the "
+             "implementation; implementation vs implementation on StrInput, BufferedInput and contract-checking inputs of capacity "
+             "8/16/64/128: identical events, spans, error message and position.",
+        ref="DESIGN.md 5/C10", tech="Rocq proof (per-operation input refinement) + differential correspondence across back-ends; whole-scanner simulation partial"),
+    "C12": dict(
+        text="Theorem C12_recount_is_line_and_column characterises the position recount pos_at (line = 1 + breaks, column = characters "
+             "since the last break) used as oracle; the extracted marker_ok is applied to every marker of every span and error the "
+             "implementation reports on both back-ends; span-shape rules, Display of errors and MarkedYaml node spans are checked on the "
+             "implementation; model pipeline vs implementation including all spans and error positions.",
+        ref="DESIGN.md 5/C12", tech="Rocq proof (recount specification) + extracted oracle on every reported marker + differential correspondence; scanner mark invariant partial"),
+    "C14": dict(
+        text="Theorem C14_positions_crlf: line/column of the image of a position are unchanged under LF -> CR LF (recount level). "
+             "Scanner-level commutation is not yet a theorem: every CR-free input is parsed as is, with CRLF and with CR on two back-ends "
+             "and must give identical events, text, line:column and error; the model is compared with the implementation on the CRLF image.",
+        ref="DESIGN.md 5/C14", tech="Rocq proof (positions under break substitution) + differential correspondence on substituted inputs; scanner commutation partial"),
+    "C17": dict(
+        text="Theorems C17_histories / C17_peek_is_next / C17_nothing_after_end: for EVERY deterministic core and EVERY peek/next history "
+             "the wrapper model (peek, next_event, next_event_impl) reports the results of plain iteration as specified, up to the first "
+             "error, and nothing after StreamEnd. The extracted specification spec_run is the oracle for exhaustive short and random "
+             "histories on the implementation; push (multi and repeated single) vs iterator compared event-for-event. The push "
+             "interface's recursive descent is not yet a theorem.",
+        ref="DESIGN.md 5/C17", tech="Rocq proof (wrapper over an abstract core, all histories) + extracted oracle + implementation-vs-implementation push/pull"),
     "C02": dict(
         text="Theorem C02_run: for EVERY token list the pull-parser model delivers a prefix of the event grammar, a complete "
              "sentence when it reports no error, and never panics (invariant InvS by induction over steps). Tie: model parser "
